@@ -81,6 +81,9 @@ func genStructural(r *h.Rand, d delims) (string, string) {
 	cases := []sc{
 		{pre + L + ` "x" ` + post, "error"},                                        // unterminated action
 		{pre + LC + ` never closed ` + post, "error"},                              // unterminated comment
+		{pre + LC + RC[1:] + " t", "error"},                                        // the closing marker may not overlap the opening one
+		{pre + LC + RC[1:] + " hidden " + RC + post, "ok"},                         // ... a comment whose body starts like the end of the closing marker
+		{pre + LC + LC + RC + post, "ok"},                                          // ... or contains the opening marker
 		{pre + act(`"abc`) + post, "error"},                                        // unterminated string
 		{pre + act("`abc") + post, "error"},                                        // unterminated raw string
 		{pre + act(`'a`) + post, "error"},                                          // unterminated char
